@@ -549,6 +549,34 @@ class Runner(object):
                               "file content %s: %d bytes expected, %d found, first difference at offset %d (chunk size %d)" % (
                                   how, len(e), len(a), i, c),
                               dict(w, offset=i, expected_bytes=e[max(0, i - 8):i + 8], found_bytes=a[max(0, i - 8):i + 8]))
+        # --- the same transfer once more over the same connection after the destination went away in between (a deployment that is
+        #     repeated after the target was cleaned): nothing remembered from the first time may stand in for work on the second
+        if spec.get("repeat") and not diffs and exc is None and spec["dest"] in ("absent", "absent-deep") and not conn.closed:
+            if os.path.isdir(dst):
+                shutil.rmtree(dst)
+            elif os.path.lexists(dst):
+                os.remove(dst)
+            state2, exc2 = guarded(lambda: invoke(classic, conn, spec, src, dst, flt), STALL_LIMIT)
+            ctx.count("transfers_repeated_after_the_destination_was_removed")
+            if state2 == "stalled":
+                self.dead = True
+                self.close()
+                ctx.violation(P + "transfer-does-not-return", "the repeated %s had not returned after %d s" % (direction, STALL_LIMIT), wit)
+                return
+            if exc2 is not None:
+                ctx.violation(P + "repeated-transfer-raised/%s" % type(exc2).__name__, "the same %s again, after the destination had been removed, raised %r" % (direction, exc2),
+                              dict(wit, error=repr(exc2)[:300]))
+            else:
+                again = snapshot(dst)
+                d2 = []
+                if again is None:
+                    d2.append(("missing", (), expected, None))
+                else:
+                    compare(expected, again, (), d2)
+                if d2:
+                    kind2, rel2, e2, a2 = d2[0]
+                    ctx.violation(P + "repeated-transfer-differs/%s" % kind2, "the same %s again, after the destination had been removed, left %s %s (expected %s, found %s)" % (
+                        direction, kind2, "/".join(rel2) or "<top>", describe(e2), describe(a2)), wit)
         # --- the source is untouched
         if snapshot(src) != source:
             ctx.violation(P + "source-modified", "the source tree differs from what was written before the transfer", wit)
@@ -593,7 +621,7 @@ def sibling_specs(tag):
     for direction in ("upload", "download"):
         for api, dest in (("generic", "absent"), ("dir", "exists-merge"), ("positional", "exists-empty")):
             yield dict(kind="siblings", seed="%s/%s/%s" % (tag, direction, api), chunk=None if api == "dir" else 16, direction=direction,
-                       filter="none", api=api, dest=dest)
+                       filter="none", api=api, dest=dest, repeat=True)
 
 
 def random_specs(rng, tag):
@@ -615,7 +643,7 @@ def random_specs(rng, tag):
             api = rng.choice(["generic", "file", "positional"])
             dest = rng.choice(["absent", "absent", "exists-other"])
             flt = rng.choice(["none", "reject-all", "suffix(.tmp)"]) if api != "file" else "none"
-        yield dict(kind=kind, seed=tag, chunk=chunk, direction=direction, filter=flt, api=api, dest=dest)
+        yield dict(kind=kind, seed=tag, chunk=chunk, direction=direction, filter=flt, api=api, dest=dest, repeat=rng.random() < .35)
 
 
 def run(ctx):
